@@ -30,6 +30,10 @@ func main() {
 		if err != nil {
 			os.Exit(2)
 		}
+	case "worker-session":
+		os.Exit(checks.SessionWorker(os.Args[2], os.Args[3]))
+	case "replay-sessions":
+		os.Exit(checks.SessionReplay(os.Args[2], os.Args[3], os.Args[4]))
 	case "check":
 		if len(os.Args) < 3 {
 			os.Exit(2)
